@@ -361,6 +361,12 @@ def build_class(prog, rec, W, decorated=True):
             return 7
         if mode == 'junk_list':
             return [1, 2]
+        if mode == 'junk_keys':         # a mapping, but not with string keys
+            return {1: 'one', None: 'x', ('a', 'b'): 2, b'raw': 3}
+        if mode == 'junk_pairs':        # iterable of pairs, as dict.update accepts
+            return [(2, 'two'), ('k', 'v')]
+        if mode == 'junk_str':
+            return 'not a mapping'
         return dict((kk, V.build(vv)) for kk, vv in prog.get('extractor_meta', []))
 
     ex = extractor if prog.get('extractor', 'none') != 'none' else None
